@@ -16,6 +16,9 @@ prop("C13",
      bounds={"quick": "L=6", "thorough": "L=9"},
      runs=[dict(name="h_bounded", sources=["harness/h_bounded.c"], profile="asan",
                 args={"quick": ["--L=6"], "thorough": ["--L=9"]}),
+           # the same with sources made of UTF-8 sequences, in the C locale and after setlocale(LC_ALL, "C.utf8") (skipped with a note where that locale is missing)
+           dict(name="h_bounded_u8", binary="h_bounded", sources=["harness/h_bounded.c"], profile="asan", args={"quick": ["--L=6", "--src=utf8"], "thorough": ["--L=9", "--src=utf8"]}),
+           dict(name="h_bounded_u8loc", binary="h_bounded", sources=["harness/h_bounded.c"], profile="asan", args={"quick": ["--L=6", "--src=utf8", "--locale=C.utf8"], "thorough": ["--L=9", "--src=utf8", "--locale=C.utf8"]}),
            dict(name="h_compat", sources=["harness/h_compat.c"], profile="asan", args={})],
      deadline={"quick": 120, "thorough": 1200})
 
@@ -93,7 +96,10 @@ prop("C12",
      bounds={"quick": "N=6 (299593 strings); again with the second letter replaced by 0xA0 and by 0x89", "thorough": "N=8 (19.2 M strings); with 0xA0 / 0x89 as the second letter at N=7"},
      runs=[dict(name="h_tokens", sources=["harness/h_tokens.c"], profile="asan", args={"quick": ["--N=6"], "thorough": ["--N=8"]}),
            dict(name="h_tokens_hbA0", binary="h_tokens", sources=["harness/h_tokens.c"], profile="asan", args={"quick": ["--N=6", "--hb=0xA0"], "thorough": ["--N=7", "--hb=0xA0"]}),
-           dict(name="h_tokens_hb89", binary="h_tokens", sources=["harness/h_tokens.c"], profile="asan", args={"quick": ["--N=6", "--hb=0x89"], "thorough": ["--N=7", "--hb=0x89"]})],
+           dict(name="h_tokens_hb89", binary="h_tokens", sources=["harness/h_tokens.c"], profile="asan", args={"quick": ["--N=6", "--hb=0x89"], "thorough": ["--N=7", "--hb=0x89"]}),
+           # the second letter replaced by the white-space characters a hand-written blank test forgets: vertical tab, form feed
+           dict(name="h_tokens_hb0B", binary="h_tokens", sources=["harness/h_tokens.c"], profile="asan", args={"quick": ["--N=6", "--hb=0x0B"], "thorough": ["--N=7", "--hb=0x0B"]}),
+           dict(name="h_tokens_hb0C", binary="h_tokens", sources=["harness/h_tokens.c"], profile="asan", args={"quick": ["--N=5", "--hb=0x0C"], "thorough": ["--N=7", "--hb=0x0C"]})],
      deadline={"quick": 200, "thorough": 3000})
 
 
@@ -208,7 +214,7 @@ prop("C08",
           "(pre-parse pass, then normal pass) and every target variable, guard word, handler call and the final argv are compared with the assignment computed from the items; "
           "part B: every vector of <= N hostile tokens x 4 settings: terminates (<= 1000 diagnostics), ASan clean, foreign bits and guard words untouched, argv a NULL-terminated sub-sequence; "
           "non-trivial = valid item sequences, and hostile vectors that raise the bad-option count",
-     bounds={"quick": "K=3 items (42 spellings), N=4 tokens (22 tokens)", "thorough": "K=4, N=5"},
+     bounds={"quick": "K=3 items (47 spellings), N=4 tokens (22 tokens)", "thorough": "K=4, N=5"},
      runs=[dict(name="h_opt", sources=["harness/h_opt.c"], profile="asan", wraps=["libast_print_error", "libast_print_warning"],
                 args={"quick": ["--K=3", "--N=4"], "thorough": ["--K=4", "--N=5"]})],
      deadline={"quick": 240, "thorough": 3000})
@@ -281,7 +287,7 @@ for _pid in ("C01", "C02", "C03", "C04", "C05", "C06", "C07", "C08", "C09", "C10
     _P = PROPS[_pid]
     _extra = []
     for _r in _P["runs"]:
-        if _r["name"].endswith("_leak") or _r["name"].endswith("_la") or _r["name"].endswith("_big") or "_hb" in _r["name"] or _r["name"] == "h_compat" or _r.get("profile") not in ("asan",):
+        if _r["name"].endswith("_leak") or _r["name"].endswith("_la") or _r["name"].endswith("_big") or "_hb" in _r["name"] or "_u8" in _r["name"] or _r["name"] == "h_compat" or _r.get("profile") not in ("asan",):
             continue
         _d = dict(_r)
         _d["name"] = _r["name"] + "_dl"
